@@ -2,6 +2,7 @@
 import atexit
 import json
 import os
+import re
 import shutil
 import subprocess
 import sys
@@ -19,8 +20,21 @@ EXIT_OK, EXIT_VIOLATION, EXIT_UNDECIDED = 0, 1, 2
 _scratch_dirs = []
 
 
+def _sweep_stale(max_age_s=6 * 3600):
+    """Removes scratch directories left behind by killed runs (older than 6 h)."""
+    try:
+        now = time.time()
+        for d in os.listdir(SCRATCH_ROOT):
+            p = os.path.join(SCRATCH_ROOT, d)
+            if os.path.isdir(p) and re.match(r"^(kani|verus|replay|mut|try|man|setup)-", d) and now - os.path.getmtime(p) > max_age_s:
+                shutil.rmtree(p, ignore_errors=True)
+    except OSError:
+        pass
+
+
 def mkscratch(tag):
     os.makedirs(SCRATCH_ROOT, exist_ok=True)
+    _sweep_stale()
     d = tempfile.mkdtemp(prefix=tag + "-", dir=SCRATCH_ROOT)
     _scratch_dirs.append(d)
     return d
